@@ -72,7 +72,7 @@ func drawC19(rt *rapid.T) interface{} {
 	for i := 0; i < np; i++ {
 		used = append(used, rapid.IntRange(0, len(pairs)-1).Draw(rt, "pair"))
 	}
-	n := rapid.IntRange(1, 30).Draw(rt, "nops")
+	n := rapid.IntRange(1, hx.Pick(30, 80)).Draw(rt, "nops")
 	for i := 0; i < n; i++ {
 		op := vOp{Op: rapid.SampledFrom([]string{"send", "send", "verify", "verify", "verify", "adv"}).Draw(rt, "op"), As: -1}
 		op.Pair = rapid.SampledFrom(used).Draw(rt, "p")
@@ -467,6 +467,7 @@ func TestC19(t *testing.T) {
 		Stubs:       []string{"time (simtime.Manual: whole-second monotone clock, thresholds at n+0.5 s)", "crypto/rand (simcrand seeded stream)", "SMS sender (captures the code)"},
 		Rule: "two classes: logic = config (code length 1-8, lifetime / minimum interval / counting window at n+0.5 s incl. always and never regimes, count limit 0-10, attempt limit 0-5, mock or real sender) x 1-3 (area, phone) pairs, some of which collide when concatenated without a separator, x up to 30 ops: send, verify(right|wrong|another pair's code x right|wrong|another pair's|stale hash, optionally presented under another pair), clock advances incl. jumps to just before / after each threshold; checked against a reference record per pair; " +
 			"alphabet = 2000-3000 real-sender codes: length and every digit occurs; non-trivial = >=3 ops; distinct = distinct hash of the operation/result log (hashes named by equality class)",
+		Probes: []string{"class-logic", "class-alphabet", "send-accepted", "send-too-soon", "send-over-count-limit", "verify-ok", "verify-over-attempt-limit", "verify-after-lifetime", "verify-as-other-pair", "advance-to-threshold", "pair-under-eviction-pressure"},
 		Assumptions: []string{"the (MaxCount+1)-th send of a window may be accepted or refused (the statement leaves that boundary open); the first MaxCount must be accepted and the (MaxCount+2)-th refused",
 			"every verification attempt against a sent code counts towards the attempt limit; a successful verification does not consume the code", "SMS sender failures are not injected (the statement is silent about them)"},
 	})
